@@ -804,7 +804,7 @@ mod tests {
     fn real_known_values() {
         // 1.0 = 0x4110000000000000 ; 1e-3 and 1e-9 as in every sky130 GDS file
         assert_eq!(real_encode(1.0f64.to_bits()), Some(0x4110_0000_0000_0000));
-        assert_eq!(real_encode(1e-3f64.to_bits()), Some(0x3E41_8937_4BC6_A7F0 & !0xF | 0x0)); // 53-bit value: low nibble is exact shift
+        assert_eq!(real_encode(1e-3f64.to_bits()), Some(0x3E41_8937_4BC6_A7F0)); // 53-bit value, zero-padded
         assert_eq!(real_decode(0x4110_0000_0000_0000), 1.0f64.to_bits());
         assert_eq!(real_decode(0x3E41_8937_4BC6_A7EF), 0.001f64.to_bits());
         assert_eq!(real_decode(0x3944_B82F_A09B_5A54), 1e-9f64.to_bits());
